@@ -29,6 +29,7 @@ ASSUMPTIONS = [
 ]
 
 NOW_US = None  # set in run(): a Wednesday 20:30 UTC
+QUICK = []  # quick tier: alternate the runners over the trees instead of running both on each
 
 
 # ---------------------------------------------------------------- clause families
@@ -259,6 +260,9 @@ def check_tree(h: Harness, shape, fams, tag_):
         return
     clause_texts = [h.clause_text(f, i) for f, i in leaves]
     runners = "I" if uses_stub else "IC"
+    if QUICK and runners == "IC":
+        QUICK[0] += 1
+        runners = "IC" if QUICK[0] % 3 == 0 else ("I" if QUICK[0] % 3 == 1 else "C")
     realised = set()
     for bits in itertools.product((True, False), repeat=n):
         resource = {"Tags": [tag("base", "x")], "_fl": [], "_he": [], "SnapshotId": "snap-9"}
@@ -351,6 +355,8 @@ def run(ctx):
     acc = ctx.acc
     rnd = ctx.rnd
     h = Harness(acc)
+    if not ctx.thorough:
+        QUICK.append(0)
     maxconn = 3 if ctx.thorough else 2
     i = 0
     complete = True
